@@ -176,7 +176,7 @@ Fixpoint digits_val (s : bytes) (acc : N) : option N :=
 
 (** [str::parse::<u64>]: optional '+', at least one digit, no overflow *)
 Definition parse_u64 (s : bytes) : option N :=
-  let ds := match s with 43 :: r => r | _ => s end in
+  let ds := match s with c :: r => if c =? 43 then r else s | [] => s end in
   match ds with [] => None | _ => digits_val ds 0 end.
 
 (** the id a directory scan assigns to a name ("wal-<u64>.log"), if any *)
@@ -193,6 +193,17 @@ Definition pad_dec (w : nat) (n : N) : bytes :=
 (** the file [archive_log id] opens: "wal-{:05}.log" *)
 Definition log_name (id : N) : bytes :=
   walarch_log_prefix ++ pad_dec walarch_pad_width id ++ walarch_log_suffix.
+
+(** What a directory scan (archiver and cleaner use the same one) makes of a name: the id, when the name
+    parses as "wal-<u64>.log", the id is below [keep] and — since fix 1c3fa90, flag read from the Rust
+    text — the name is exactly the canonical name [archive_log] opens for that id. *)
+Definition scan_id (n : bytes) (keep : N) : option N :=
+  match parse_log_name n with
+  | Some id =>
+      if walarch_eligible id keep && (negb walarch_scan_canonical_only || bytes_eqb n (log_name id))
+      then Some id else None
+  | None => None
+  end.
 
 (** [generate_filename]: "wal-{:05}-{start}-{end}.wal.zst" *)
 Definition archive_name (id s e : N) : bytes :=
@@ -257,20 +268,18 @@ Definition archive_log (io : N -> io_outcome) (wal : wdir) (root : aroot) (id : 
       end
   end.
 
-(** [WalArchiver::archive_logs_up_to]: one [archive_log] per directory entry whose name scans to an
-    eligible id (in directory order; the results do not depend on it). *)
+(** [WalArchiver::archive_logs_up_to]: one [archive_log] per directory entry the scan accepts
+    (in directory order; the results do not depend on it). *)
 Fixpoint archive_scan (io : N -> io_outcome) (wal : wdir) (todo : list (bytes * wobj)) (root : aroot)
          (keep : N) : aroot * list (option bytes) :=
   match todo with
   | [] => (root, [])
   | (n, _) :: r =>
-      match parse_log_name n with
+      match scan_id n keep with
       | Some id =>
-          if walarch_eligible id keep then
-            let (root1, res) := archive_log io wal root id in
-            let (root2, rs) := archive_scan io wal r root1 keep in
-            (root2, res :: rs)
-          else archive_scan io wal r root keep
+          let (root1, res) := archive_log io wal root id in
+          let (root2, rs) := archive_scan io wal r root1 keep in
+          (root2, res :: rs)
       | None => archive_scan io wal r root keep
       end
   end.
@@ -282,20 +291,21 @@ Definition archive_logs_up_to (io : N -> io_outcome) (wal : wdir) (root : aroot)
 Definition is_none {A} (o : option A) : bool := match o with None => true | Some _ => false end.
 Definition is_wfile (o : wobj) : bool := match o with WFile _ => true | WDir => false end.
 
-(** the deletion loop: [remove_file] on every entry whose name scans to an eligible id
+(** the deletion loop: [remove_file] on every entry the scan accepts
     (fails on a directory, or when the environment says so) *)
 Definition delete_hits (del_ok : bytes -> bool) (keep : N) (p : bytes * wobj) : bool :=
-  match parse_log_name (fst p) with
-  | Some id => walarch_eligible id keep && is_wfile (snd p) && del_ok (fst p)
+  match scan_id (fst p) keep with
+  | Some _ => is_wfile (snd p) && del_ok (fst p)
   | None => false
   end.
 Definition delete_pass (del_ok : bytes -> bool) (keep : N) (d : wdir) : wdir :=
   filter (fun p => negb (delete_hits del_ok keep p)) d.
 
-(** The world the cleaner acts on.  [w_wal] is the WAL directory the *archiver* resolves from the
-    configuration.  [w_cwal = None]: the cleaner was built by [WalCleaner::new] and deletes from the
-    same directory (the production path); [Some d]: it was built by [with_wal_dir] on another
-    directory [d] — the archiver still reads the configured one. *)
+(** The world the cleaner acts on.  [w_wal] is the WAL directory of the configuration (what
+    [WalArchiver::new] reads).  [w_cwal = None]: the cleaner was built by [WalCleaner::new] and works on
+    that same directory (the production path); [Some d]: it was built by [with_wal_dir] on another
+    directory [d].  Since fix db8e58e (flag read from the Rust text) the cleaner's archiver reads the
+    directory the cleaner deletes from. *)
 Record world := mkWorld { w_wal : wdir; w_cwal : option wdir; w_root : aroot }.
 
 Definition cleaner_dir (w : world) : wdir := match w_cwal w with Some d => d | None => w_wal w end.
@@ -305,11 +315,15 @@ Definition set_cleaner_dir (w : world) (d : wdir) (root : aroot) : world :=
   | None => mkWorld d None root
   end.
 
+(** the directory the cleaner's archive pass reads *)
+Definition archiver_dir (w : world) : wdir :=
+  if walarch_cleaner_archives_own_dir then cleaner_dir w else w_wal w.
+
 (** [WalCleaner::cleanup_up_to]; second component: the archive results ([]) in plain mode). *)
 Definition cleanup_up_to (conservative : bool) (fl : faults) (w : world) (keep : N)
   : world * list (option bytes) :=
   if conservative then
-    let (root1, res) := archive_logs_up_to (f_io fl) (w_wal w) (w_root w) keep in
+    let (root1, res) := archive_logs_up_to (f_io fl) (archiver_dir w) (w_root w) keep in
     if walarch_abort_on_failure && existsb is_none res
     then (mkWorld (w_wal w) (w_cwal w) root1, res)
     else (set_cleaner_dir w (delete_pass (f_del_ok fl) keep (cleaner_dir w)) root1, res)
@@ -317,8 +331,55 @@ Definition cleanup_up_to (conservative : bool) (fl : faults) (w : world) (keep :
 
 (** ** Recovery *)
 
+(** [str::split(sep)] *)
+Fixpoint split_on (c : N) (s : bytes) : list bytes :=
+  match s with
+  | [] => [[]]
+  | x :: r =>
+      if x =? c then [] :: split_on c r
+      else match split_on c r with h :: t => (x :: h) :: t | [] => [[x]] end
+  end.
+
+Definition key_max : N * N * N := (u64_max, u64_max, u64_max).
+
+(** [archive_sort_key]: (id, start, end) parsed from "wal-{id}-{start}-{end}.wal.zst", anything else last *)
+Definition archive_sort_key (n : bytes) : N * N * N :=
+  match strip_prefix walarch_key_prefix n with
+  | None => key_max
+  | Some s =>
+      match strip_suffix walarch_key_suffix s with
+      | None => key_max
+      | Some m =>
+          match split_on walarch_key_sep m with
+          | [a; b; c] =>
+              match parse_u64 a, parse_u64 b, parse_u64 c with
+              | Some x, Some y, Some z => (x, y, z)
+              | _, _, _ => key_max
+              end
+          | _ => key_max
+          end
+      end
+  end.
+
+Definition key_cmp (k1 k2 : N * N * N) : comparison :=
+  let '(a1, b1, c1) := k1 in
+  let '(a2, b2, c2) := k2 in
+  match a1 ?= a2 with
+  | Eq => match b1 ?= b2 with Eq => c1 ?= c2 | o => o end
+  | o => o
+  end.
+
+(** the order [list_archives] sorts by: plain path order before fix 06752f6, since then the numeric key
+    with the path as tie-break (flag read from the Rust text) *)
 Definition name_leb (a b : bytes * aobj) : bool :=
-  match bytes_cmp (fst a) (fst b) with Gt => false | _ => true end.
+  let by_path := match bytes_cmp (fst a) (fst b) with Gt => false | _ => true end in
+  if walarch_recovery_numeric_sort then
+    match key_cmp (archive_sort_key (fst a)) (archive_sort_key (fst b)) with
+    | Lt => true
+    | Gt => false
+    | Eq => by_path
+    end
+  else by_path.
 
 Fixpoint insert_by {A} (leb : A -> A -> bool) (x : A) (l : list A) : list A :=
   match l with
@@ -360,40 +421,18 @@ Fixpoint run_history (root : aroot) (h : list round) : aroot :=
   | r :: h' => run_history (fst (fst (run_round root r))) h'
   end.
 
-(** ** Decidable descriptions of the known failing input classes *)
-
-(** a scanned, eligible name that is not the name [archive_log] will open for its id *)
-Definition aliased_name (keep : N) (p : bytes * wobj) : bool :=
-  match parse_log_name (fst p) with
-  | Some id => walarch_eligible id keep && negb (bytes_eqb (fst p) (log_name id))
-  | None => false
-  end.
-Definition has_aliased_name (wal : wdir) (keep : N) : bool := existsb (aliased_name keep) wal.
-
-(** the cleaner deletes from another directory than the archiver reads *)
-Definition cleaner_dir_differs (w : world) : bool :=
-  match w_cwal w with Some _ => true | None => false end.
-
-(** an eligible id with more digits than the pad width (name order <> id order from there on) *)
-Definition wide_id (keep : N) (p : bytes * wobj) : bool :=
-  match parse_log_name (fst p) with
-  | Some id => walarch_eligible id keep && negb (id <? 10 ^ N.of_nat walarch_arch_pad_width)
-  | None => false
-  end.
-Definition has_wide_id (wal : wdir) (keep : N) : bool := existsb (wide_id keep) wal.
+(** ** Decidable description of the one known failing input class that is left *)
 
 (** the archive name a log of this round would be written under *)
 Definition round_archive_names (wal : wdir) (keep : N) : list bytes :=
   flat_map (fun p =>
-    match parse_log_name (fst p) with
+    match scan_id (fst p) keep with
     | Some id =>
-        if walarch_eligible id keep then
-          match lookup (log_name id) wal with
-          | Some (WFile ls) =>
-              match parse_lines ls with Some es => [afile_name (make_archive id es)] | None => [] end
-          | _ => []
-          end
-        else []
+        match lookup (log_name id) wal with
+        | Some (WFile ls) =>
+            match parse_lines ls with Some es => [afile_name (make_archive id es)] | None => [] end
+        | _ => []
+        end
     | None => []
     end) wal.
 Definition name_reused (nm : bytes) (wal : wdir) (keep : N) : bool :=
